@@ -440,12 +440,34 @@ func (fv *FV) callStatic(st *State, callee *types.Func, recv *Term, recvExpr ast
 		}
 	}
 	// receiver: auto address/deref
+	var unbox func()
 	if recv != nil && osig.Recv() != nil {
 		_, wantPtr := osig.Recv().Type().(*types.Pointer)
 		_, havePtr := recv.T.Underlying().(*types.Pointer)
 		if wantPtr && !havePtr {
-			// addressable struct value receiver: unsupported except via cells
-			fv.fail(c.Pos(), "method %s needs a pointer receiver, value given", callee.Name())
+			// x.M() with pointer receiver on an addressable local of non-struct type: box the variable in a fresh
+			// cell for the duration of the call and read it back afterwards (the callee does not retain the pointer)
+			id, isID := ast.Unparen(recvExpr).(*ast.Ident)
+			if !isID || recv.Sort == sSlice && false {
+				fv.fail(c.Pos(), "method %s needs a pointer receiver, value given", callee.Name())
+			}
+			obj := fv.info.ObjectOf(id)
+			cur, live := st.vars[obj]
+			if !live || strings.HasPrefix(cur.Sort, "S_") {
+				fv.fail(c.Pos(), "method %s needs a pointer receiver, value given", callee.Name())
+			}
+			key, _ := fv.elemComp(cur.T)
+			cell := fv.newRef(st, "box")
+			E := fv.heapGet(st, key)
+			fv.heapSetNoFrame(st, key, sto(E, cell, sto(sel(E, cell), "0", cur.S)))
+			fv.declare("sort:ElemPtr", "(declare-datatypes ((ElemPtr 0)) (((mk-eptr (epbase Int) (epidx Int)))))")
+			boxed := Term{S: fmt.Sprintf("(mk-eptr %s 0)", cell), Sort: "ElemPtr", T: types.NewPointer(cur.T)}
+			recv = &boxed
+			unbox = func() {
+				v := cur
+				v.S = sel(sel(fv.heapGet(st, key), cell), "0")
+				fv.setVar(st, obj, fv.nameTerm(st, obj.Name(), v))
+			}
 		}
 		if !wantPtr && havePtr {
 			v := fv.derefRead(st, *recv, c.Pos())
@@ -471,7 +493,29 @@ func (fv *FV) callStatic(st *State, callee *types.Func, recv *Term, recvExpr ast
 	if fi != nil {
 		name = fi.Key
 	}
-	return fv.callByContract(st, fc, pc, osig, name, recv, args, rtypes, c.Pos(), fi)
+	instTypeArgs = nil
+	switch f := ast.Unparen(c.Fun).(type) {
+	case *ast.Ident:
+		if in, ok := fv.info.Instances[f]; ok {
+			instTypeArgs = in.TypeArgs
+		}
+	case *ast.SelectorExpr:
+		if in, ok := fv.info.Instances[f.Sel]; ok {
+			instTypeArgs = in.TypeArgs
+		}
+	case *ast.IndexExpr:
+		if id, ok := f.X.(*ast.Ident); ok {
+			if in, ok := fv.info.Instances[id]; ok {
+				instTypeArgs = in.TypeArgs
+			}
+		}
+	}
+	res := fv.callByContract(st, fc, pc, osig, name, recv, args, rtypes, c.Pos(), fi)
+	instTypeArgs = nil
+	if unbox != nil {
+		unbox()
+	}
+	return res
 }
 
 func (fv *FV) asParam(v Term, pt types.Type) Term {
@@ -495,10 +539,70 @@ func (fv *FV) builtinLib(st *State, callee *types.Func, recv *Term, c *ast.CallE
 }
 
 // callByContract replaces a call by the callee's contract.
+// calleeTypeArgs maps the callee's type parameter names to the types they are instantiated with at this call.
+func (fv *FV) calleeTypeArgs(fi *FuncInfo, recv *Term, inst *types.TypeList) map[string]types.Type {
+	if fi == nil {
+		return nil
+	}
+	out := map[string]types.Type{}
+	fd := fi.Decl
+	if fd.Recv != nil && len(fd.Recv.List) > 0 && recv != nil && recv.T != nil {
+		// receiver type parameters: names from the declaration, arguments from the receiver's type
+		t := recv.T
+		if p, ok := t.Underlying().(*types.Pointer); ok {
+			t = p.Elem()
+		}
+		if pp, ok := t.(*types.Pointer); ok {
+			t = pp.Elem()
+		}
+		if named, ok := types.Unalias(t).(*types.Named); ok && named.TypeArgs() != nil {
+			var names []string
+			rt := fd.Recv.List[0].Type
+			if se, ok := rt.(*ast.StarExpr); ok {
+				rt = se.X
+			}
+			switch x := rt.(type) {
+			case *ast.IndexExpr:
+				if id, ok := x.Index.(*ast.Ident); ok {
+					names = append(names, id.Name)
+				}
+			case *ast.IndexListExpr:
+				for _, ix := range x.Indices {
+					if id, ok := ix.(*ast.Ident); ok {
+						names = append(names, id.Name)
+					}
+				}
+			}
+			for i, n := range names {
+				if i < named.TypeArgs().Len() && n != "_" {
+					out[n] = named.TypeArgs().At(i)
+				}
+			}
+		}
+	}
+	if fd.Type.TypeParams != nil && inst != nil {
+		i := 0
+		for _, f := range fd.Type.TypeParams.List {
+			for _, n := range f.Names {
+				if i < inst.Len() {
+					out[n.Name] = inst.At(i)
+				}
+				i++
+			}
+		}
+	}
+	if len(out) == 0 {
+		return nil
+	}
+	return out
+}
+
+var instTypeArgs *types.TypeList
+
 func (fv *FV) callByContract(st *State, fc *FuncContract, pc *PkgContracts, osig *types.Signature, name string, recv *Term, args []Term, rtypes []types.Type, pos token.Pos, fi *FuncInfo) []Term {
 	fv.callOrd[name]++
 	ord := fv.callOrd[name]
-	env := &Env{fv: fv, st: st, names: map[string]Term{}, pc: pc, roles: fc.Roles}
+	env := &Env{fv: fv, st: st, names: map[string]Term{}, pc: pc, roles: fc.Roles, tsubst: fv.calleeTypeArgs(fi, recv, instTypeArgs)}
 	if recv != nil && osig.Recv() != nil && osig.Recv().Name() != "" {
 		env.names[osig.Recv().Name()] = *recv
 	}
@@ -581,7 +685,7 @@ func (fv *FV) callByContract(st *State, fc *FuncContract, pc *PkgContracts, osig
 		s := fv.sortOf(t)
 		env.names[g.Name] = Term{S: fv.fresh(name+"."+g.Name, s), Sort: s, T: t}
 	}
-	penv := &Env{fv: fv, st: st, old: pre, names: env.names, pc: pc, results: results, roles: fc.Roles}
+	penv := &Env{fv: fv, st: st, old: pre, names: env.names, pc: pc, results: results, roles: fc.Roles, tsubst: env.tsubst}
 	for _, e := range fc.Ensures {
 		if fv.tagOK(e.Tags) {
 			fv.assume(st, fv.specBool(penv, e.Expr))
@@ -696,6 +800,14 @@ func (fv *FV) modTarget(env *Env, e SExpr) []modTarget {
 		case "mapof":
 			m := fv.spec(env, x.Args[0])
 			return fv.mapTargets(m)
+		case "deref":
+			p := fv.spec(env, x.Args[0])
+			if p.Sort != "ElemPtr" {
+				return nil // a boxed local: written back by the call itself
+			}
+			pt := p.T.Underlying().(*types.Pointer)
+			key, _ := fv.elemComp(pt.Elem())
+			return []modTarget{{key: key, ref: "(epbase " + p.S + ")", lo: "(epidx " + p.S + ")", hi: "(+ (epidx " + p.S + ") 1)"}}
 		}
 	case *SField:
 		p := fv.spec(env, x.X)
